@@ -66,6 +66,12 @@ type FnCtx struct {
 	defers     []*deferRec
 	curInstr   ssa.Instruction
 
+	noRecord    bool
+	anchorArgs  []Val
+	anchorRes   *Val
+	anchorLog   []anchorKey
+	anchorsHit  map[*AnchorClause]bool
+	anchorsSeen map[string]bool
 	probe       bool
 	blockWrites map[int]*NameSet
 	curBlock    int
@@ -77,7 +83,7 @@ type FnCtx struct {
 }
 
 func (fc *FnCtx) recordWrite(name string) {
-	if fc.blockWrites == nil {
+	if fc.blockWrites == nil || fc.noRecord {
 		return
 	}
 	ns := fc.blockWrites[fc.curBlock]
@@ -274,7 +280,13 @@ func (fc *FnCtx) loadAt(st *State, t types.Type, ref string) Val {
 	return out
 }
 
+func isFreshRef(ref string) bool { return strings.HasPrefix(ref, "|alloc!") }
+
 func (fc *FnCtx) storeAt(st *State, t types.Type, ref string, v Val) {
+	if isFreshRef(ref) && !fc.noRecord {
+		fc.noRecord = true
+		defer func() { fc.noRecord = false }()
+	}
 	switch u := t.Underlying().(type) {
 	case *types.Struct:
 		off := 0
@@ -397,6 +409,12 @@ func (fc *FnCtx) loadFat(st *State, elem types.Type, p fatPtr) Val {
 }
 
 func (fc *FnCtx) storeFat(st *State, elem types.Type, p fatPtr, v Val) {
+	if isFreshRef(p.ref) && !fc.noRecord {
+		if _, ok := litFid(p.fid); ok {
+			fc.noRecord = true
+			defer func() { fc.noRecord = false }()
+		}
+	}
 	for k, lf := range layout(elem) {
 		cellName := fmt.Sprintf("C|%s|%d", typeKey(elem), k)
 		cellSort := arraySort(SortRef, lf.Sort)
@@ -878,6 +896,9 @@ func (fc *FnCtx) makeIface(x Val, it types.Type) Val {
 	default:
 		// box: fresh immutable object holding the leaves
 		ref := fc.allocRef()
+		savedNR := fc.noRecord
+		fc.noRecord = true
+		defer func() { fc.noRecord = savedNR }()
 		for k, lf := range ls {
 			name := fmt.Sprintf("BOX|%s|%d", typeKey(x.T), k)
 			srt := arraySort(SortRef, lf.Sort)
